@@ -267,4 +267,60 @@ theorem scan_positions_placeholder_newline :
     (scan ⟨false, true⟩ ⟨1, 1⟩ 0 "<a\nb> c".toList).map (fun r => r.tokens.map (·.start)) =
       some [⟨1,1⟩, ⟨1,7⟩, ⟨1,8⟩] := by decide +kernel
 
+/-! ### indentation depth: tabs or groups of four spaces at the start of a line -/
+
+theorem adv_indent (s : St) (c : Char) : (s.adv c).indent = s.indent := by simp [St.adv]
+theorem adv_should (s : St) (c : Char) (h : isSpace c = true) : (s.adv c).shouldIndent = s.shouldIndent := by simp [St.adv, h]
+
+/-- a line that starts with `t` tabs has indentation depth `t` more -/
+theorem indent_tabs (t : Nat) (s : St) (c : Char) (cs : List Char) (hs : s.shouldIndent = true)
+    (h1 : c ≠ ' ') (h2 : c ≠ '\r') (h3 : c ≠ '\t') (h4 : c ≠ '\n') :
+    (skipWs s 0 (List.replicate t '\t' ++ c :: cs)).st.indent = s.indent + t := by
+  induction t generalizing s with
+  | zero => simp [skipWs, h1, h2, h3, h4]
+  | succ t ih =>
+    have : List.replicate (t + 1) '\t' ++ c :: cs = '\t' :: (List.replicate t '\t' ++ c :: cs) := by simp [List.replicate_succ]
+    rw [this]
+    unfold skipWs
+    simp only [show ('\t' : Char) ≠ ' ' by decide, show ('\t' : Char) ≠ '\r' by decide, if_false, if_true, hs]
+    simp only [Sub.cons]
+    rw [ih]
+    · simp [adv_indent]; omega
+    · rw [adv_should _ _ (by decide)]
+
+theorem indent_spaces_aux (m : Nat) : ∀ (n : Nat) (s : St) (c : Char) (cs : List Char), n < 4 → s.shouldIndent = true →
+    c ≠ ' ' → c ≠ '\r' → c ≠ '\t' → c ≠ '\n' →
+    (skipWs s n (List.replicate m ' ' ++ c :: cs)).st.indent = s.indent + (n + m) / 4 := by
+  induction m with
+  | zero =>
+    intro n s c cs hn hs h1 h2 h3 h4
+    have : n / 4 = 0 := by omega
+    simp [skipWs, h1, h2, h3, h4, this]
+  | succ m ih =>
+    intro n s c cs hn hs h1 h2 h3 h4
+    have : List.replicate (m + 1) ' ' ++ c :: cs = ' ' :: (List.replicate m ' ' ++ c :: cs) := by simp [List.replicate_succ]
+    rw [this]
+    unfold skipWs
+    simp only [if_true, hs, Bool.true_and]
+    by_cases h : (n + 1 == 4) = true
+    · simp only [h, if_true, Sub.cons]
+      have hn3 : n = 3 := by simpa using h
+      rw [ih 0 _ c cs (by omega) (by rw [adv_should _ _ (by decide)]) h1 h2 h3 h4]
+      simp [adv_indent]; omega
+    · simp only [h, Sub.cons]
+      have hn3 : n + 1 < 4 := by
+        have : n + 1 ≠ 4 := by simpa using h
+        omega
+      simp only [Bool.false_eq_true, if_false]
+      rw [ih (n + 1) _ c cs hn3 (by rw [adv_should _ _ (by decide)]; exact hs) h1 h2 h3 h4]
+      simp [adv_indent]; omega
+
+/-- four spaces count as one level, and fewer than four left over count nothing -/
+theorem indent_spaces (k r : Nat) (hr : r < 4) (s : St) (c : Char) (cs : List Char) (hs : s.shouldIndent = true)
+    (h1 : c ≠ ' ') (h2 : c ≠ '\r') (h3 : c ≠ '\t') (h4 : c ≠ '\n') :
+    (skipWs s 0 (List.replicate (4 * k + r) ' ' ++ c :: cs)).st.indent = s.indent + k := by
+  rw [indent_spaces_aux (4 * k + r) 0 s c cs (by omega) hs h1 h2 h3 h4]
+  omega
+
+
 end DDP.Scanner
